@@ -39,11 +39,12 @@ func (c17) Info(tier string) fw.Info {
 		Rule: "seeded programs spawning 1..8 cores (also nested spawns) that print unique lines, write unique values to scalar globals and read them between op_begin/op_end, receive distinct scalar and list arguments, finish at very different times, optionally with one core failing at a chosen step; each program is run under the race detector with GOMAXPROCS in {1,2,4,16} and seed-determined yield plans at the VM's scheduling points (wait lock-upgrade gap, spawn, globals lock). " +
 			"oracle: no race report with a /repo frame; every expected line appears exactly once and whole; arguments echo the spawn-time values; every fin(id) event precedes the wait-returned event; a failing core's fatal interrupt is what the wait returns; the history of global reads/writes is linearizable per global (porcupine, register model). " +
 			"family shared-ro: globals holding ranges, int lists, str lists and strings which the cores only read, and range/list/str spawn arguments taken from a global, from a local of main shared by several spawns or from a literal, consumed by 2..8 cores at overlapping times through for / for+break (and re-entry) / for+continue / nested for / for over a local copy / index+len, with a host scheduling point tick() in every loop body and GOMAXPROCS set per case; oracle: every core prints exactly the result line its function prints in the sequential twin of the program (each `spawn f(..)` replaced by the call `f(..)`), plus the oracles above. " +
+			"family shared-path: the same for shared values which a core reaches through an expression: a global object, an object nested in an object, global lists of int lists / ranges / objects and object / list-of-lists spawn arguments (taken from a global, a part of a global, a shared local of main or a literal) hold the ranges, lists and strings; the iterable (or indexed value) of every loop form is a member, member-of-member, constant or computed index, member-then-index, index-then-member expression, the result of a call to a function returning a global or a part of one, or such an expression inside a grouping, block, if/else or cast; same twin oracle. " +
 			"non-trivial = at least 2 cores ran and the run finished; distinct = distinct (program, plan, GOMAXPROCS); interleavings_distinct counts distinct per-core event orders observed",
 		Assumptions: []string{
 			"schedules are sampled (yield plans + GOMAXPROCS), not enumerated",
 			"mutable containers reachable from several cores are not synchronised by design notes in the code (TODO deepcopy) and are only read in the main workload",
-			"family shared-ro: the reference result of a worker is what the real VM computes for the same function called sequentially (twin run, one core); what an iteration yields is not modelled",
+			"families shared-ro and shared-path: the reference result of a worker is what the real VM computes for the same function called sequentially (twin run, one core); what an iteration yields is not modelled",
 		},
 		CaseTimeoutS: 60,
 		BatchSize:    40,
@@ -58,12 +59,13 @@ func (c17) Info(tier string) fw.Info {
 type Payload struct {
 	Seed  uint64 `json:"seed"`
 	Plan  uint64 `json:"plan"`
-	Shape string `json:"shape"` // print | globals | args | mixed | fail | nested | late-spawn | shared-ro
+	Shape string `json:"shape"` // print | globals | args | mixed | fail | nested | late-spawn | shared-ro | shared-path
 	// ForceGap: always sleep in the wait lock-upgrade gap (pinned witnesses).
 	ForceGap bool `json:"force_gap,omitempty"`
 	// Procs: GOMAXPROCS for this case (0 = whatever the batch runs with).
 	Procs int `json:"procs,omitempty"`
-	// Hot: shared-ro only, index of the global every worker of the program consumes (stratified over the programs).
+	// Hot: shared-ro / shared-path only, index of the global (of the expression) every worker of the program consumes
+	// (stratified over the programs).
 	Hot int `json:"hot,omitempty"`
 }
 
@@ -104,6 +106,25 @@ func (c17) Cases(tier string, seed uint64) []fw.Case {
 			}
 		}
 	}
+	// family shared-path (see sharedpath.go): the same with shared values reached through member / index / call
+	// expressions; again an own generator stream.
+	rp := fw.NewRng(seed ^ 0xC17947)
+	npa, paPlans := 12, 3
+	if tier == "thorough" {
+		npa, paPlans = 2 * roPathHots, 6
+	}
+	paSeeds := make([]uint64, npa)
+	for i := range paSeeds {
+		paSeeds[i] = rp.Next()
+	}
+	for j := 0; j < paPlans; j++ {
+		for i := 0; i < npa; i++ {
+			plan := rp.Next()
+			for _, procs := range []int{1, 2, 4, 16} {
+				cases = append(cases, fw.MkCase(fmt.Sprintf("c17-pa-%03d-%d-p%d", i, j, procs), "threads", Payload{Seed: paSeeds[i], Plan: plan, Shape: "shared-path", Procs: procs, Hot: i % roPathHots}))
+			}
+		}
+	}
 	return cases
 }
 
@@ -118,11 +139,23 @@ type spec struct {
 	failKind string         // expected fatal kind ("" = normal completion)
 	globals  []string
 	cores    int
+	cover    []string // construct classes the program contains (coverage keys)
+}
+
+// roShape: the families whose oracle is the sequential twin.
+func roShape(shape string) bool { return shape == "shared-ro" || shape == "shared-path" }
+
+// buildRO builds a program of such a family (seq: its sequential twin).
+func buildRO(p Payload, seq bool) spec {
+	if p.Shape == "shared-path" {
+		return buildSharedPath(p, seq)
+	}
+	return buildSharedRO(p, seq)
 }
 
 func build(p Payload) spec {
-	if p.Shape == "shared-ro" {
-		return buildSharedRO(p, false)
+	if roShape(p.Shape) {
+		return buildRO(p, false)
 	}
 	r := fw.NewRng(p.Seed)
 	var sb strings.Builder
@@ -485,10 +518,11 @@ func (c17) Run(c fw.Case) fw.Result {
 	}
 	sp := build(p)
 	res := fw.Result{Verdict: fw.Held, Cover: []string{"shape:" + p.Shape, fmt.Sprintf("gomaxprocs:%d", goruntime.GOMAXPROCS(0))}}
+	res.Cover = append(res.Cover, sp.cover...)
 	// family shared-ro: the reference is the sequential twin, run first (one core, no yields)
 	var twin map[string][]string
-	if p.Shape == "shared-ro" {
-		tsrc := buildSharedRO(p, true).src
+	if roShape(p.Shape) {
+		tsrc := buildRO(p, true).src
 		tex, sig, why := execute(tsrc, &monitor{planMode: map[string]int{}}, false)
 		if sig == "" && tex.out.Class != "ok" {
 			sig, why = "twin:outcome:"+tex.out.Class+"/"+tex.out.Kind, fmt.Sprintf("the sequential twin ended with %s\n--- twin\n%s", tex.out, tsrc)
@@ -517,7 +551,7 @@ func (c17) Run(c fw.Case) fw.Result {
 	if p.ForceGap {
 		mon.planMode["wait-gap"] = 4
 	}
-	if p.Shape == "shared-ro" {
+	if roShape(p.Shape) {
 		// one plan in eight leaves the loop bodies alone; the others yield / sleep in them
 		if x := pr.Intn(8); x > 0 {
 			mon.tickMode = 1 + x%3
@@ -596,7 +630,7 @@ func (c17) Run(c fw.Case) fw.Result {
 			case have[0] != want[0] && strings.HasPrefix(want[0], have[0]):
 				fail("output:unexpected-or-torn", fmt.Sprintf("core %s: the line %q reached the host torn, first chunk %q", id, util.Clip(want[0], 300), util.Clip(have[0], 300)))
 			case have[0] != want[0]:
-				fail("shared-ro:result-differs-from-sequential", fmt.Sprintf("core %s, consuming values which no core ever writes, printed %q (r id count checksum elements); the same function called sequentially with the same arguments prints %q", id, util.Clip(have[0], 300), util.Clip(want[0], 300)))
+				fail(p.Shape+":result-differs-from-sequential", fmt.Sprintf("core %s, consuming values which no core ever writes, printed %q (r id count checksum elements); the same function called sequentially with the same arguments prints %q", id, util.Clip(have[0], 300), util.Clip(want[0], 300)))
 			}
 		}
 		for id := range gotByID {
